@@ -45,7 +45,17 @@ def truth(v):
 FALSY = z3.Function("falsy", Ref, z3.BoolSort())
 
 
+def unwrap_opt(v, safety=None):
+    """use of an Optional value as a number: the inner value (side condition: it is not None)"""
+    if isinstance(v, V) and isinstance(v.sort, OptSort):
+        if safety:
+            safety("Optional value is not None here", z3.Not(v.comps[0]))
+        return V(v.sort.inner, v.comps[1:])
+    return v
+
+
 def unify_num(a, b):
+    a, b = unwrap_opt(a), unwrap_opt(b)
     if a.sort == b.sort:
         return a, b
     if a.sort == BOOL:
@@ -69,8 +79,7 @@ def binop(op, a, b, safety=None):
         return vstr(z3.Concat(a.z, b.z))
     if isinstance(a.sort, SeqSort) or isinstance(b.sort, SeqSort):
         raise Unsupported("sequence arithmetic")
-    if isinstance(a.sort, OptSort) or isinstance(b.sort, OptSort):
-        raise Unsupported("arithmetic on Optional value (needs an 'is not None' guard)")
+    a, b = unwrap_opt(a, safety), unwrap_opt(b, safety)
     if isinstance(op, (ast.BitXor, ast.BitAnd, ast.BitOr, ast.RShift, ast.LShift)):
         a, b = coerce(a, BV) if a.sort != BV else a, coerce(b, BV) if b.sort != BV else b
         f = {ast.BitXor: lambda x, y: x ^ y, ast.BitAnd: lambda x, y: x & y, ast.BitOr: lambda x, y: x | y,
@@ -112,8 +121,6 @@ def compare(op, a, b):
         return z3.Not(compare(ast.Is() if isinstance(op, ast.IsNot) else ast.Eq(), a, b))
     if isinstance(a, PyVal) or isinstance(b, PyVal):
         raise Unsupported("ordering of python-level values")
-    if isinstance(a.sort, OptSort) or isinstance(b.sort, OptSort):
-        raise Unsupported("ordering on Optional value")
     a, b = unify_num(a, b)
     if a.sort == BV:
         f = {ast.Lt: z3.ULT, ast.LtE: z3.ULE, ast.Gt: z3.UGT, ast.GtE: z3.UGE}[type(op)]
